@@ -13,7 +13,15 @@ import (
 // nilTest decodes `X != nil` / `X == nil`; nonNil says whether the dir edge
 // asserts X != nil.
 func nilTest(i *ssa.If, dir bool) (x ssa.Value, nonNil bool, ok bool) {
-	b, isB := i.Cond.(*ssa.BinOp)
+	cond := i.Cond
+	for k := 0; k < 4; k++ {
+		u, isU := cond.(*ssa.UnOp)
+		if !isU || u.Op != token.NOT {
+			break
+		}
+		cond, dir = u.X, !dir // `!(x != nil)`: a presence flag computed by the caller and negated by a helper
+	}
+	b, isB := cond.(*ssa.BinOp)
 	if !isB || (b.Op != token.EQL && b.Op != token.NEQ) {
 		return nil, false, false
 	}
@@ -183,6 +191,49 @@ func rulePairDirect(c *Ctx) {
 						return []Ev{{Kind: "release", Stop: true}}
 					}
 					return []Ev{{Kind: "release:bad", Note: "direct/count arguments are not (true, 1)", Stop: true}}
+				}
+			} else if call, ok := in.(ssa.CallInstruction); ok {
+				// a release through another function of the package (the bool parameter replaced by two
+				// functions, a helper around them): what it lowers on the subscription it is handed decides
+				if sf := call.Common().StaticCallee(); sf != nil && p.isRepoFn(sf) && sf.Parent() == nil && sf.Pkg == t.Root.Pkg {
+					args := callArgs(call.Common())
+					for ai, a := range args {
+						if ai >= len(sf.Params) || !isSub(t, fr, a) {
+							continue
+						}
+						dirDec, indDec := p.decrementsOn(sf, ai, 0)
+						if !dirDec {
+							continue
+						}
+						cntOK, cntSeen := true, false
+						for bi, b := range args {
+							if bt, isB := b.Type().Underlying().(*types.Basic); isB && bt.Info()&types.IsInteger != 0 && bi != ai {
+								cntSeen = true
+								if n, nc := constInt(t.Resolve(fr, b).V); !nc || n != 1 {
+									cntOK = false
+								}
+							}
+						}
+						if indDec {
+							// lowers either count: the first bool argument says which
+							isDirect := false
+							for _, b := range args {
+								if bt, isB := b.Type().Underlying().(*types.Basic); isB && bt.Kind() == types.Bool {
+									if d, dc := constBool(t.Resolve(fr, b).V); dc && d {
+										isDirect = true
+									}
+									break
+								}
+							}
+							if !isDirect {
+								continue
+							}
+						}
+						if cntOK || !cntSeen {
+							return []Ev{{Kind: "release", Stop: true}}
+						}
+						return []Ev{{Kind: "release:bad", Note: "the count released is not 1", Stop: true}}
+					}
 				}
 			}
 			// the request's own answer: the root's callback called with a nil / non-nil error
@@ -1153,7 +1204,20 @@ func rulePairThrottle(c *Ctx) {
 			if _, ok := isCallTo(in, add); ok {
 				return []Ev{{Kind: "add"}}
 			}
+			isDone := false
 			if _, ok := isCallTo(in, done); ok {
+				isDone = true
+			} else if cl, ok := in.(ssa.CallInstruction); ok && !cl.Common().IsInvoke() && cl.Common().StaticCallee() == nil {
+				// Done handed over as a func value (`send(subj, payload, t.Done)` … `done()`)
+				if _, isB := cl.Common().Value.(*ssa.Builtin); !isB {
+					if mc, isMC := t.Resolve(fr, cl.Common().Value).V.(*ssa.MakeClosure); isMC {
+						if bf := mc.Fn.(*ssa.Function); bf.Synthetic != "" && boundMethod(bf) == done {
+							isDone = true
+						}
+					}
+				}
+			}
+			if isDone {
 				k := "done"
 				if fr.In(func(x *Frame) bool { return x.MayDrop }) {
 					k = "done:in-refusable-task"
@@ -1344,4 +1408,47 @@ func replyOKBeforeFail(path []Ev) bool {
 		}
 	}
 	return false
+}
+
+
+// decrementsOn: does fn lower the direct / the indirect count of the
+// subscription it receives as parameter idx — itself, or in a function it
+// hands that very parameter on to (two levels)?
+func (p *Prog) decrementsOn(fn *ssa.Function, idx int, depth int) (direct, indirect bool) {
+	fDir := p.Field("server.Subscription.direct")
+	fInd := p.Field("server.Subscription.indirect")
+	if idx >= len(fn.Params) || depth > 2 {
+		return
+	}
+	prm := fn.Params[idx]
+	for _, in := range instrsOf(fn) {
+		switch x := in.(type) {
+		case *ssa.Store:
+			fa, ok := x.Addr.(*ssa.FieldAddr)
+			if !ok || fa.X != ssa.Value(prm) {
+				continue
+			}
+			if b, isB := x.Val.(*ssa.BinOp); isB && b.Op == token.SUB {
+				switch fieldOfAddr(fa) {
+				case fDir:
+					direct = true
+				case fInd:
+					indirect = true
+				}
+			}
+		case ssa.CallInstruction:
+			sf := x.Common().StaticCallee()
+			if sf == nil || !p.isRepoFn(sf) || sf == fn {
+				continue
+			}
+			for ai, a := range callArgs(x.Common()) {
+				if a == ssa.Value(prm) {
+					d, i := p.decrementsOn(sf, ai, depth+1)
+					direct = direct || d
+					indirect = indirect || i
+				}
+			}
+		}
+	}
+	return
 }
